@@ -243,6 +243,16 @@ theorem takes_fields : ∀ (l : List (Nat × Cst)) (st : State),
       · rintro ⟨⟨a1, a2⟩, a3⟩; exact ⟨a1, a2, a3⟩
       · rintro ⟨a1, a2, a3⟩; exact ⟨⟨a1, a2⟩, a3⟩
 
+theorem take_nextVar (st : State) (i : Nat) : (st.takeConstraint i).1.nextVar = st.nextVar := by
+  unfold State.takeConstraint
+  split <;> rfl
+
+theorem takes_nextVar : ∀ (l : List (Nat × Cst)) (st : State), (takes l st).nextVar = st.nextVar
+  | [], _ => rfl
+  | a :: l, st => by
+    have e : takes (a :: l) st = takes l (st.takeConstraint a.1).1 := rfl
+    rw [e, takes_nextVar l, take_nextVar]
+
 def subBy (ord : Order) (ps : Ext1) : Nat × Cst → Bool :=
   fun p => match p.2 with | .diseq ps' => State.subsumes ord ps' ps | _ => false
 
@@ -278,20 +288,22 @@ structure AddOK (st : State) (P : Subst → Prop) (st' : State) : Prop where
   tree : TreeOnly st'
   ids : IdsOK st'
   sem : ∀ γ, Ext st.σ γ → (StoreSem γ st' ↔ (StoreSem γ st ∧ P γ))
+  /-- the source of fresh variables is not touched -/
+  nv : st'.nextVar = st.nextVar
 
 theorem AddOK.of_entailed {st : State} {P : Subst → Prop} (ht : TreeOnly st) (hi : IdsOK st)
     (h : ∀ γ, Ext st.σ γ → P γ) : AddOK st P st :=
-  ⟨rfl, ht, hi, fun γ hx => ⟨fun a => ⟨a, h γ hx⟩, fun a => a.1⟩⟩
+  ⟨rfl, ht, hi, fun γ hx => ⟨fun a => ⟨a, h γ hx⟩, fun a => a.1⟩, rfl⟩
 
 theorem AddOK.trans {st st1 st2 : State} {P Q : Subst → Prop} (h1 : AddOK st P st1)
     (h2 : AddOK st1 Q st2) : AddOK st (fun γ => P γ ∧ Q γ) st2 := by
-  refine ⟨h2.sig.trans h1.sig, h2.tree, h2.ids, fun γ hx => ?_⟩
+  refine ⟨h2.sig.trans h1.sig, h2.tree, h2.ids, fun γ hx => ?_, h2.nv.trans h1.nv⟩
   have hx1 : Ext st1.σ γ := by rw [h1.sig]; exact hx
   rw [h2.sem γ hx1, h1.sem γ hx, and_assoc]
 
 theorem AddOK.congr {st st' : State} {P Q : Subst → Prop} (h : AddOK st P st')
     (hpq : ∀ γ, Ext st.σ γ → (P γ ↔ Q γ)) : AddOK st Q st' :=
-  ⟨h.sig, h.tree, h.ids, fun γ hx => by rw [h.sem γ hx, hpq γ hx]⟩
+  ⟨h.sig, h.tree, h.ids, fun γ hx => by rw [h.sem γ hx, hpq γ hx], h.nv⟩
 
 /-- adding a new disequality (normalised by subsumption) -/
 theorem withNew_diseq {ord : Order} (ho : OrderOK ord) {st : State} (ht : TreeOnly st) (hi : IdsOK st)
@@ -302,7 +314,7 @@ theorem withNew_diseq {ord : Order} (ho : OrderOK ord) {st : State} (ht : TreeOn
   split
   · -- the new constraint is subsumed by a stored one
     rename_i hany
-    refine ⟨rfl, ht, ⟨hi.1, fun p hp => Nat.lt_succ_of_lt (hi.2 p hp)⟩, fun γ _ => ?_⟩
+    refine ⟨rfl, ht, ⟨hi.1, fun p hp => Nat.lt_succ_of_lt (hi.2 p hp)⟩, fun γ _ => ?_, rfl⟩
     refine ⟨fun a => ⟨a, ?_⟩, fun a => a.1⟩
     obtain ⟨p, hp, hsub⟩ := List.any_eq_true.mp hany
     obtain ⟨ps', he, hs⟩ := subBy_true hsub
@@ -316,7 +328,10 @@ theorem withNew_diseq {ord : Order} (ho : OrderOK ord) {st : State} (ht : TreeOn
     obtain ⟨t1, t2, t3, t4, t5⟩ := takes_fields red st0
     have hmem : ∀ q, q ∈ (takes red st0).store → q ∈ st.store := fun q hq => by
       rw [← hstore0]; exact ((t5 q).mp hq).1
-    refine ⟨?_, ⟨?_, ?_⟩, ⟨?_, ?_⟩, fun γ _ => ?_⟩
+    refine ⟨?_, ⟨?_, ?_⟩, ⟨?_, ?_⟩, fun γ _ => ?_, ?_⟩
+    rotate_right
+    · show (takes red st0).nextVar = st.nextVar
+      rw [takes_nextVar]; subst hst0; rfl
     · exact t1.trans hσ0
     · intro p hp
       rcases List.mem_append.mp hp with hp | hp
